@@ -307,6 +307,18 @@ theorem mem_enumFrom_snd {α : Type} : ∀ (xs : List α) (n : Nat) {p : Nat × 
 theorem mem_zip_snd {α β : Type} {l : List α} {l' : List β} {t : α × β} (h : t ∈ l.zip l') : t.2 ∈ l' :=
   (List.of_mem_zip (a := t.1) (b := t.2) h).2
 
+theorem noRef_lookup_ref {kvs : List (Str × Json)} (hs : Spec.noRef (.obj kvs) = true) :
+    Json.lookup (skey "$ref") kvs = none := by
+  cases h : Json.lookup (skey "$ref") kvs with
+  | none => rfl
+  | some x => exact absurd rfl (noRef_obj_key hs (lookup_mem' h))
+
+theorem schemaBody_noRef (env : Env) (impl : FmtImpl) (cfg : Cfg) (rec : Rec) (inst : Json)
+    {kvs : List (Str × Json)} (hs : Spec.noRef (.obj kvs) = true) :
+    schemaBody env impl cfg rec inst kvs = seqG (runKeyword env impl cfg rec inst (.obj kvs)) kvs := by
+  unfold schemaBody
+  rw [noRef_lookup_ref hs]
+
 /-! ### the keyword functions, the recursive call restricted to reference-free schemas -/
 
 open ClosedNR
@@ -516,6 +528,243 @@ theorem N_kwTypeDraft3 (cfg : Cfg) (v inst : Json) (hv : Spec.noRef v = true) :
     · intro m acc; nr_tac H hrec
     · intro t ht; exact noRef_ensureList hv ‹_› (mem_enumFrom_snd _ _ ht)
 
+/-! keyword functions that do not recurse -/
+
+omit hrec in
+theorem N_kwBound (cfg : Cfg) (t : String) (f : Num → Num → Bool) (v inst : Json) :
+    P (kwBound cfg t f v inst) := by
+  unfold kwBound; nr_tac H hrec
+
+omit hrec in
+theorem N_kwLenBound (cfg : Cfg) (ty t : String) (lt : Bool) (len : Json → Option Nat) (v inst : Json) :
+    P (kwLenBound cfg ty t lt len v inst) := by
+  unfold kwLenBound; nr_tac H hrec
+
+omit hrec in
+theorem N_leaf (impl : FmtImpl) (cfg : Cfg) (v inst schema : Json) :
+    P (kwConst v inst) ∧ P (kwMultipleOf cfg v inst) ∧ P (kwUniqueItems cfg v inst)
+    ∧ P (kwPattern env cfg v inst) ∧ P (kwFormat env impl cfg v inst) ∧ P (kwEnum v inst)
+    ∧ P (kwType cfg v inst) ∧ P (kwRequired cfg v inst)
+    ∧ P (kwMinimumDraft3Draft4 cfg v inst schema) ∧ P (kwMaximumDraft3Draft4 cfg v inst schema) := by
+  refine ⟨?_, ?_, ?_, ?_, ?_, ?_, ?_, ?_, ?_, ?_⟩
+  · unfold kwConst; nr_tac H hrec
+  · unfold kwMultipleOf; nr_tac H hrec
+  · unfold kwUniqueItems; nr_tac H hrec
+  · unfold kwPattern; nr_tac H hrec
+  · unfold kwFormat; nr_tac H hrec
+  · unfold kwEnum; nr_tac H hrec
+  · unfold kwType; nr_tac H hrec
+  · unfold kwRequired; nr_tac H hrec
+  · unfold kwMinimumDraft3Draft4; split <;> exact N_kwBound H _ _ _ _ _
+  · unfold kwMaximumDraft3Draft4; split <;> exact N_kwBound H _ _ _ _ _
+
+/-! ### the dispatcher -/
+
+/-- every keyword function but `$ref`'s, called with a reference-free value inside a reference-free
+    schema, satisfies `P` if the recursive call does on reference-free schemas -/
+theorem N_applyKw (impl : FmtImpl) (cfg : Cfg) (f : KwFn) (hf : f ≠ .ref) (v inst schema : Json)
+    (hv : Spec.noRef v = true) (hs : Spec.noRef schema = true) :
+    P (applyKw env impl cfg rec f v inst schema) := by
+  have leaf := N_leaf H impl cfg v inst schema
+  cases f <;> unfold applyKw <;> dsimp only
+  case ref => exact absurd rfl hf
+  case additionalItems => exact N_kwAdditionalItems H hrec _ _ _ _ hv
+  case additionalProperties => exact N_kwAdditionalProperties H hrec _ _ _ _ hv
+  case const => exact leaf.1
+  case contains => exact N_kwContains H hrec _ _ _ hv
+  case exclusiveMinimum => exact N_kwBound H ..
+  case exclusiveMaximum => exact N_kwBound H ..
+  case minimum => exact N_kwBound H ..
+  case maximum => exact N_kwBound H ..
+  case multipleOf => exact leaf.2.1
+  case minItems => exact N_kwLenBound H ..
+  case maxItems => exact N_kwLenBound H ..
+  case uniqueItems => exact leaf.2.2.1
+  case pattern => exact leaf.2.2.2.1
+  case format => exact leaf.2.2.2.2.1
+  case minLength => exact N_kwLenBound H ..
+  case maxLength => exact N_kwLenBound H ..
+  case dependencies => exact N_kwDependencies H hrec _ _ _ hv
+  case enum => exact leaf.2.2.2.2.2.1
+  case type => exact leaf.2.2.2.2.2.2.1
+  case properties => exact N_kwProperties H hrec _ _ _ hv
+  case required => exact leaf.2.2.2.2.2.2.2.1
+  case minProperties => exact N_kwLenBound H ..
+  case maxProperties => exact N_kwLenBound H ..
+  case allOf => exact N_kwAllOf H hrec _ _ hv
+  case anyOf => exact N_kwAnyOf H hrec _ _ hv
+  case oneOf => exact N_kwOneOf H hrec _ _ hv
+  case not_ => exact N_kwNot H hrec _ _ hv
+  case if_ => exact N_kwIf H hrec _ _ _ hv hs
+  case items => exact N_kwItems H hrec _ _ _ hv
+  case patternProperties => exact N_kwPatternProperties H hrec _ _ _ hv
+  case propertyNames => exact N_kwPropertyNames H hrec _ _ _ hv
+  case dependencies_draft3 => exact N_kwDependenciesDraft3 H hrec _ _ _ hv
+  case disallow_draft3 => exact N_kwDisallowDraft3 H hrec _ _ hv
+  case extends_draft3 => exact N_kwExtendsDraft3 H hrec _ _ _ hv
+  case items_draft3_draft4 => exact N_kwItemsDraft3Draft4 H hrec _ _ _ hv
+  case minimum_draft3_draft4 => exact leaf.2.2.2.2.2.2.2.2.1
+  case maximum_draft3_draft4 => exact leaf.2.2.2.2.2.2.2.2.2
+  case properties_draft3 => exact N_kwPropertiesDraft3 H hrec _ _ _ _ hv
+  case type_draft3 => exact N_kwTypeDraft3 H hrec _ _ _ hv
+  case alwaysFail => exact N_emit H _
+  case never => exact N_nothing H
+  case foreign => exact N_crashG H _
+
+/-- the validator class binds the `$ref` function to the key `$ref` only -/
+def RefOnly (cfg : Cfg) : Prop := ∀ k, lookupS k cfg.keywords = some KwFn.ref → k = skey "$ref"
+
+theorem N_runKeyword (impl : FmtImpl) {cfg : Cfg} (href : RefOnly cfg) (inst : Json)
+    {kvs : List (Str × Json)} (hs : Spec.noRef (.obj kvs) = true) {kv : Str × Json} (hkv : kv ∈ kvs) :
+    P (runKeyword env impl cfg rec inst (.obj kvs) kv) := by
+  unfold runKeyword
+  split
+  · exact N_nothing H
+  · rename_i f hf
+    refine N_mapErrs H _ (N_applyKw H hrec impl cfg f ?_ _ _ _ (noRef_obj_mem hs hkv) hs)
+    intro he
+    subst he
+    exact noRef_obj_key hs hkv (href _ hf)
+
+theorem N_schemaBody (impl : FmtImpl) {cfg : Cfg} (href : RefOnly cfg) (inst : Json)
+    {kvs : List (Str × Json)} (hs : Spec.noRef (.obj kvs) = true) :
+    P (schemaBody env impl cfg rec inst kvs) := by
+  rw [schemaBody_noRef env impl cfg rec inst hs]
+  exact N_seqG H _ _ fun kv hkv => N_runKeyword H hrec impl href inst hs hkv
+
+/-- `P` passes through one layer of `iter_errors` on a reference-free schema -/
+theorem N_evalStep (impl : FmtImpl) {cfg : Cfg} (href : RefOnly cfg) (inst schema : Json)
+    (hs : Spec.noRef schema = true) : P (evalStep env impl cfg rec inst schema) := by
+  unfold evalStep
+  split
+  · exact N_nothing H
+  · exact N_emit H _
+  · split
+    · exact N_withScopeOpt H _ (N_schemaBody H hrec impl href inst hs)
+    · exact N_crashG H _
+  · exact N_crashG H _
+
 end KwNR
+
+/-- `P` holds of the evaluator on every reference-free schema, at every fuel -/
+theorem N_eval {env : Env} {P : Gen → Prop} (H : ClosedNR env P) (impl : FmtImpl) {cfg : Cfg}
+    (href : RefOnly cfg) (fuel : Nat) :
+    ∀ i s, Spec.noRef s = true → P (eval env impl cfg fuel i s) := by
+  induction fuel with
+  | zero => intro i s _; exact N_stopG_fuel H
+  | succ n ih => intro i s hs; exact N_evalStep H ih impl href i s hs
+
+/-! ### facts about the generated draft tables -/
+
+theorem lookupS_mem' {α : Type} {k : Str} {a : α} : ∀ {l : List (Str × α)},
+    lookupS k l = some a → (k, a) ∈ l
+  | [], h => by cases h
+  | (k', x') :: rest, h => by
+    unfold lookupS at h
+    split at h
+    · rename_i hk; cases h; subst hk; exact List.mem_cons_self ..
+    · exact List.mem_cons_of_mem _ (lookupS_mem' h)
+
+theorem draft_refOnly (d : Draft) (fc : Option FormatChecker) : RefOnly (d.cfg fc) := by
+  intro k hk
+  have hall : (d.keywords.all fun p => p.2 != KwFn.ref || p.1 == skey "$ref") = true := by
+    cases d <;> decide +kernel
+  have := List.all_eq_true.mp hall _ (lookupS_mem' hk)
+  simpa using this
+
+/-! ### state independence -/
+
+/-- the generator yields the same errors and stops the same way from any two states with the same
+    scope stack, and leaves the state it found -/
+def StInd (g : Gen) : Prop := ∀ b st st', st.scopes = st'.scopes →
+  (g b st).errs = (g b st').errs ∧ (g b st).stop = (g b st').stop ∧ (g b st).st = st
+
+theorem StInd.emit (es : List Err) : StInd (emit es) := by
+  intro b st st' _
+  unfold JS.emit
+  cases b with
+  | none => exact ⟨rfl, rfl, rfl⟩
+  | some k => dsimp only; split <;> exact ⟨rfl, rfl, rfl⟩
+
+theorem StInd.stopG (s : Stop) : StInd (stopG s) := fun _ _ _ _ => ⟨rfl, rfl, rfl⟩
+
+theorem StInd.andThen {g h : Gen} (hg : StInd g) (hh : StInd h) : StInd (andThen g h) := by
+  intro b st st' hsc
+  obtain ⟨he, hs, hst⟩ := hg b st st' hsc
+  obtain ⟨-, -, hst'⟩ := hg b st' st hsc.symm
+  unfold JS.andThen
+  rcases h1 : g b st with ⟨es, s, st1⟩
+  rcases h2 : g b st' with ⟨es', s', st1'⟩
+  rw [h1, h2] at he hs
+  rw [h1] at hst
+  rw [h2] at hst'
+  dsimp only at he hs hst hst'
+  subst he hs hst hst'
+  cases s with
+  | done =>
+    dsimp only
+    obtain ⟨a, b', c⟩ := hh (budgetSub b es.length) st1 st1' hsc
+    exact ⟨congrArg (es ++ ·) a, b', c⟩
+  | budget => exact ⟨rfl, rfl, rfl⟩
+  | raised e => exact ⟨rfl, rfl, rfl⟩
+  | fuel => exact ⟨rfl, rfl, rfl⟩
+  | miss q => exact ⟨rfl, rfl, rfl⟩
+
+theorem StInd.mapErrs (f : Err → Err) {g : Gen} (hg : StInd g) : StInd (mapErrs f g) := by
+  intro b st st' hsc
+  obtain ⟨he, hs, hst⟩ := hg b st st' hsc
+  exact ⟨congrArg (List.map f) he, hs, hst⟩
+
+theorem StInd.inner {g : Gen} (b' : Option Nat) (k : List Err → Gen) (hg : StInd g)
+    (hk : ∀ es, StInd (k es)) : StInd (inner g b' k) := by
+  intro b st st' hsc
+  obtain ⟨he, hs, hst⟩ := hg b' st st' hsc
+  obtain ⟨-, -, hst'⟩ := hg b' st' st hsc.symm
+  unfold JS.inner
+  rcases h1 : g b' st with ⟨es, s, st1⟩
+  rcases h2 : g b' st' with ⟨es', s', st1'⟩
+  rw [h1, h2] at he hs
+  rw [h1] at hst
+  rw [h2] at hst'
+  dsimp only at he hs hst hst'
+  subst he hs hst hst'
+  cases s with
+  | done => exact hk es b st1 st1' hsc
+  | budget => exact hk es b st1 st1' hsc
+  | raised e => exact ⟨rfl, rfl, rfl⟩
+  | fuel => exact ⟨rfl, rfl, rfl⟩
+  | miss q => exact ⟨rfl, rfl, rfl⟩
+
+theorem StInd.withScope (env : Env) (scope : Str) {g : Gen} (hg : StInd g) :
+    StInd (withScope env scope g) := by
+  intro b st st' hsc
+  have htop : st'.top = st.top := by unfold RState.top; rw [hsc]
+  unfold JS.withScope
+  rw [htop]
+  cases env.urljoin st.top scope with
+  | none => exact ⟨rfl, rfl, rfl⟩
+  | some u =>
+    obtain ⟨a, b', c⟩ := hg b { st with scopes := u :: st.scopes } { st' with scopes := u :: st'.scopes }
+      (by show u :: st.scopes = u :: st'.scopes; rw [hsc])
+    refine ⟨a, b', ?_⟩
+    show { (g b { st with scopes := u :: st.scopes }).st with
+            scopes := (g b { st with scopes := u :: st.scopes }).st.scopes.tail } = st
+    rw [c]
+    cases st
+    rfl
+
+theorem stIndClosed (env : Env) : ClosedNR env StInd where
+  emit := StInd.emit
+  nothing := StInd.stopG .done
+  stop := fun s _ => StInd.stopG s
+  andThen := StInd.andThen
+  mapErrs := StInd.mapErrs
+  inner := StInd.inner
+  withScope := StInd.withScope env
+
+/-- a reference-free evaluation is state independent -/
+theorem eval_stInd (env : Env) (impl : FmtImpl) (d : Draft) (fc : Option FormatChecker) (fuel : Nat)
+    (i s : Json) (hs : Spec.noRef s = true) : StInd (eval env impl (d.cfg fc) fuel i s) :=
+  N_eval (stIndClosed env) impl (draft_refOnly d fc) fuel i s hs
 
 end JS
